@@ -481,6 +481,29 @@ def gen_quality_program(rng, ref, length=(3, 10)):
     return prog
 
 
+def gen_copy_program(rng, ref):
+    """Copy stress: move well into the list, copy, then reset / step BOTH cursors alternately; every step
+    re-checks the other cursor (a copy must stay independent of its original whatever either does later)."""
+    ids = [e.id for e in ref]
+    prog = [("skip_to", rng.choice(ids[len(ids) // 2:]))]
+    prog.append(("copy", rng.randint(0, 2), rng.random() < 0.5))
+    for _ in range(rng.randint(4, 10)):
+        r = rng.random()
+        if r < 0.2:
+            prog.append(("reset",))
+        elif r < 0.45:
+            prog.append(("next",))
+        elif r < 0.6:
+            prog.append(("twin", "reset", None))
+        elif r < 0.85:
+            prog.append(("twin", "next", None))
+        elif r < 0.93:
+            prog.append(("twin", "skip_to", rng.choice(ids)))
+        else:
+            prog.append(("skip_to", rng.choice(ids)))
+    return prog
+
+
 def run_program(cur, prog):
     """Execute prog on Cursor cur; raises ProtocolViolation."""
     cur.check_position("fresh")
